@@ -113,32 +113,29 @@ pub fn install_hooks() {
 
 // ---------------------------------------------------------------------------------------------- scripted wakers
 
-/// One waker object (the original made by the harness or a clone made by the code under test).  The data is LEAKED, never
-/// freed: a waker that the code under test releases twice (or uses after releasing) must show up as events for the
-/// judge (`wdrop` / `wwake` without a matching `wclone`), not corrupt the harness's heap.
+/// Scripted wakers, Arc-like: every clone shares the data pointer of the waker it was cloned from, so
+/// `Waker::will_wake` is true between a waker and its clones (as for the wakers of real executors).  The data is LEAKED,
+/// never freed: a waker that the code under test releases twice (or uses after releasing) must show up as events for the
+/// judge (`wdrop` / `wwake` beyond the `wclone`s of that id), not corrupt the harness's heap.
 struct WData {
     id: u32,
-    original: bool,
-    /// how often this object was consumed (wake or drop); > 1 = released twice
-    consumed: std::sync::atomic::AtomicU32,
 }
 
-fn w_new(id: u32, original: bool) -> *const () {
-    let d: &'static WData = Box::leak(Box::new(WData { id, original, consumed: std::sync::atomic::AtomicU32::new(0) }));
-    std::ptr::from_ref(d).cast()
+thread_local! {
+    /// set while the harness itself drops the waker it created (that drop is not an event of the code under test)
+    static OWN_DROP: std::cell::Cell<bool> = const { std::cell::Cell::new(false) };
 }
 
 fn w_clone(p: *const ()) -> RawWaker {
-    // SAFETY: p came from w_new: leaked, alive forever
+    // SAFETY: p came from make_waker: leaked, alive forever
     let d = unsafe { &*(p as *const WData) };
     log_ev(json!({"ev":"wclone","w":d.id}));
     local::on_callback("clone", d.id);
-    RawWaker::new(w_new(d.id, false), &VTABLE)
+    RawWaker::new(p, &VTABLE)
 }
 fn w_wake(p: *const ()) {
     // SAFETY: see w_clone; wake consumes the waker
     let d = unsafe { &*(p as *const WData) };
-    d.consumed.fetch_add(1, Ordering::Relaxed);
     log_ev(json!({"ev":"wwake","w":d.id}));
     local::on_callback("wake", d.id);
 }
@@ -148,20 +145,37 @@ fn w_wake_by_ref(p: *const ()) {
     log_ev(json!({"ev":"wwake_ref","w":d.id}));
 }
 fn w_drop(p: *const ()) {
+    if OWN_DROP.with(std::cell::Cell::get) {
+        return;
+    }
     // SAFETY: see w_clone
     let d = unsafe { &*(p as *const WData) };
-    let before = d.consumed.fetch_add(1, Ordering::Relaxed);
-    // the harness drops its original exactly once (not an event); anything else is an event, also a second release
-    if !d.original || before > 0 {
-        log_ev(json!({"ev":"wdrop","w":d.id}));
-        local::on_callback("drop", d.id);
-    }
+    log_ev(json!({"ev":"wdrop","w":d.id}));
+    local::on_callback("drop", d.id);
 }
 static VTABLE: RawWakerVTable = RawWakerVTable::new(w_clone, w_wake, w_wake_by_ref, w_drop);
 
-pub fn make_waker(id: u32) -> Waker {
+/// The waker the harness passes to `poll`; dropping it is not an event.
+pub struct OwnWaker(std::mem::ManuallyDrop<Waker>);
+impl std::ops::Deref for OwnWaker {
+    type Target = Waker;
+    fn deref(&self) -> &Waker {
+        &self.0
+    }
+}
+impl Drop for OwnWaker {
+    fn drop(&mut self) {
+        OWN_DROP.with(|f| f.set(true));
+        // SAFETY: dropped exactly once, here
+        unsafe { std::mem::ManuallyDrop::drop(&mut self.0) };
+        OWN_DROP.with(|f| f.set(false));
+    }
+}
+
+pub fn make_waker(id: u32) -> OwnWaker {
+    let d: &'static WData = Box::leak(Box::new(WData { id }));
     // SAFETY: the vtable functions uphold the RawWaker contract for the leaked WData
-    unsafe { Waker::from_raw(RawWaker::new(w_new(id, true), &VTABLE)) }
+    OwnWaker(std::mem::ManuallyDrop::new(unsafe { Waker::from_raw(RawWaker::new(std::ptr::from_ref(d).cast(), &VTABLE)) }))
 }
 
 /// Payload whose destructor is an event.
@@ -233,7 +247,7 @@ fn receiver_task<R: Rcv>(r: R, prog: Vec<String>) {
     let mut r = Some(r);
     let mut polls = 0u32;
     // the waker of the previous poll: "repoll" polls again with the SAME waker (will_wake() is true), "poll" with a new one
-    let mut last: Option<Waker> = None;
+    let mut last: Option<OwnWaker> = None;
     for op in prog {
         let Some(mut rc) = r.take() else { break };
         match op.as_str() {
